@@ -40,6 +40,9 @@ CallsA ==     \* the content mutators of the statement
     [] FAMILY = "policy" -> {[op |-> "Push", xs |-> <<"a">>], [op |-> "Push", xs |-> <<"a", "b">>], [op |-> "Pop"], [op |-> "Insert", x |-> "b", i |-> 0],
                              [op |-> "Push", xs |-> <<"a", "c">>],       \* c is REJECTED: the error is recorded inside the same critical section
                              [op |-> "SetMutex", dep |-> FALSE]}         \* asked again while in use: the mutex in place stays (no lock is taken)
+    \* "nnest": the no-nesting option is switched (under the lock) while Pushes of Stack values are in flight
+    [] FAMILY = "nnest" -> {[op |-> "Push", xs |-> <<"S">>], [op |-> "Push", xs |-> <<"a", "S">>], [op |-> "Pop"],
+                            [op |-> "SetOpt", f |-> "nnest", m |-> "on", dep |-> FALSE], [op |-> "SetOpt", f |-> "nnest", m |-> "off", dep |-> FALSE]}
     [] OTHER -> {[op |-> "Pop"], [op |-> "Push", xs |-> <<"a">>]}
 
 InitElems(n) == CASE n = 0 -> <<>> [] n = 1 -> <<"p">> [] n = 2 -> <<"p", "q">> [] OTHER -> <<"p", "q", "r">>
@@ -99,7 +102,7 @@ SeqExec(s, done, want) ==       \* done[g] = calls of g already executed; want =
 Linearizable == Terminal => SeqExec(init, [g \in Gs |-> 0], rets)
 CapRespected == st.cap > 0 => Len(st.e) <= st.cap
 \* every value handed out or stored is a user value: the configuration is never an element
-UserVals == {"p", "q", "r", "a", "b", "c", Nil, "true", "false"}
+UserVals == {"p", "q", "r", "a", "b", "c", "S", Nil, "true", "false"}
 OnlyUserValues == /\ \A n \in 1..Len(st.e) : st.e[n] \in UserVals
                   /\ \A g \in Gs : \A n \in 1..Len(rets[g]) : \A m \in 1..Len(rets[g][n]) : rets[g][n][m] \in UserVals
 
